@@ -22,6 +22,9 @@ def bases(ctx):
         out.append(("ref:ab:fh%d" % fh, f))
     lf = universe.lib_files([("aab", Cfg(2, universe.DELTA_DICT, 0, 3, 1))], ctx.seed)[0]
     out.append(("lib:aab:zstd-dict", lf))
+    # value-dependent shape: stored digests that begin with 0x00 (a str*-style comparison ends there) or contain one early
+    for fh, pos in ((1, 0), (0, 0), (2, 1), (3, 2)):
+        out.append(("ref:zero-hdigest@%d:fh%d" % (pos, fh), universe.zero_hdr_file(Cfg(0, b"", 0, 3, fh), ctx.seed, pos=pos)))
     return out
 
 
